@@ -15,7 +15,7 @@ Import ListNotations.
 Require Import Fggs.Model.Axis Fggs.Model.AxisCheck Fggs.Model.AxisEnum Fggs.Model.XVal Fggs.Model.PTensor Fggs.Model.PTensorCheck Fggs.Model.PTEqual.
 Require Import Fggs.Proofs.PTensor_dense Fggs.Proofs.PTEqual_count Fggs.Proofs.PTEqual_sem Fggs.Proofs.PTEqual_freshen.
 Require Import Fggs.Proofs.PTEqual_main Fggs.Proofs.PTEqual_multi Fggs.Proofs.PTEqual_bounded Fggs.Proofs.PTEqual_examples Fggs.Proofs.PTEqual_dense.
-Require Import Fggs.Proofs.Axis_typed Fggs.Proofs.Axis_total Fggs.Proofs.PTEqual_typed Fggs.Proofs.PTEqual_typed_main Fggs.Proofs.PTEqual_typed_ex.
+Require Import Fggs.Proofs.Axis_typed Fggs.Proofs.Axis_total Fggs.Proofs.PTEqual_typed Fggs.Proofs.PTEqual_typed_main Fggs.Proofs.PTEqual_typed_ex Fggs.Proofs.PTEqual_typed_total.
 Local Open Scope nat_scope.
 
 (** * supports and the counting argument (any carrier, any comparison) *)
@@ -334,6 +334,33 @@ Theorem C13_equal_reflexive_typed : forall G next pss (t : pt) b, nan_free t ->
   typed_pair xval G next pss t t -> equal_model next t t = Ok b -> b = true.
 Proof. exact equal_reflexive_typed. Qed.
 Print Assumptions C13_equal_reflexive_typed.
+
+(** the model does not fail on typed pairs -- [stride] / [fv] terminate within their fuel, every key
+    of the accumulated stride dict is a free axis (no KeyError in [project]), the free axes of the
+    second view are [subaxes] (the [__debug__] ValueError of [project] cannot fire) -- when the fuel
+    it gives to [unify] is at least the type-derived bound.
+    Full statement (open, notes/UNIFY.md): the same without the hypothesis on [unify_fuel]. *)
+Theorem C13_model_total_typed_partial : forall (V : Type) (t u : ptensor V), wf V t -> wf V u ->
+  forall G next pss, ctx_good G -> ctx_below G next -> tys G (vaxes t) pss -> tys G (vaxes u) pss -> Forall gprimes pss ->
+  Forall (fun ps => tyfuel ps <= unify_fuel (vaxes t) (vaxes u)) pss ->
+  exists ov, overlap_model V next t u = Ok ov.
+Proof. exact overlap_model_total. Qed.
+Print Assumptions C13_model_total_typed_partial.
+
+(** hence the executable premise of C13_equal_correct / C13_allclose_correct holds on every typed pair *)
+Theorem C13_compare_pre_typed_partial : forall G next pss (t u : pt),
+  typed_pair xval G next pss t u -> wf_b t = true -> wf_b u = true ->
+  Forall (fun ps => tyfuel ps <= unify_fuel (vaxes t) (vaxes u)) pss ->
+  compare_pre_b next t u = true.
+Proof. exact compare_pre_typed. Qed.
+Print Assumptions C13_compare_pre_typed_partial.
+
+Theorem C13_compare_decides_typed_partial : forall cmp G next pss (t u : pt),
+  typed_pair xval G next pss t u -> wf_b t = true -> wf_b u = true ->
+  Forall (fun ps => tyfuel ps <= unify_fuel (vaxes t) (vaxes u)) pss ->
+  exists b, compare_model xval cmp next t u = Ok b /\ (b = true <-> cellwise cmp t u).
+Proof. exact compare_decides_typed. Qed.
+Print Assumptions C13_compare_decides_typed_partial.
 
 (** the hypothesis is decidable given the context (executable, sound) *)
 Theorem C13_typed_pair_checker_sound : forall cl next pss (t u : pt),
